@@ -11,7 +11,7 @@ import os
 import random
 import tempfile
 
-from .. import factlab as fl, filtgen, rsieve
+from .. import factlab as fl, filtgen, rsieve, textgen
 from ..core import Result, split
 from .. import parserlab as lab
 
@@ -31,7 +31,7 @@ ASSUMPTIONS = [
 ]
 FLOORS = {
     "quick": {"reloads": 10000, "reloads-with-disabled": 2000, "reloads-via-file": 3000,
-              "reloads-through-a-used-parser": 5000,
+              "reloads-through-a-used-parser": 5000, "wild-names": 2500, "wild-descriptions": 1500,
               "reloads-with-CR-in-text": 1000,
               "reloads-with-description": 2000, "reloads-custom-prefix": 2000},
     "thorough": {"reloads": 150000, "reloads-with-disabled": 30000, "reloads-via-file": 40000,
@@ -192,13 +192,32 @@ def _run_shard(tier, shard, res: Result):
         prefixes = rng.choice(PREFIXES)
         vkind = rng.choice(["benign", "soft"])
         names = rng.sample(NAMES, 3)
+        if rng.random() < 0.3:
+            # a name drawn from broad character classes instead of the pool (single line,
+            # not surrounded by white space, not starting like a marker)
+            w = textgen.text(rng, 1, 8, exclude=["nul", "line-break"], no_outer_space=True)
+            w = w.replace("\n", "").replace("\r", "") or "w"
+            if w != w.strip():
+                w = "a" + w + "z"
+            if not any(w.startswith(p.strip()) or p.strip() in w for pp in PREFIXES for p in pp):
+                names[rng.randrange(3)] = w
+                res.count("wild-names")
+                for k in textgen.classes_of(w):
+                    res.observe("name-classes", k)
         h = [("add", n, filtgen.gen_definition(rng, vkind))
              for n in names[:rng.randint(1, 3)]]
         h += fl.gen_history(rng, rng.randint(0, 8), vkind, names=names)
         for _ in range(rng.randint(0, 2)):
             n = rng.choice(names)
-            h.insert(rng.randint(1, len(h)),
-                     ("replace", n, n, None, rng.choice(filtgen.DESCS[2:])))
+            desc = rng.choice(filtgen.DESCS[2:])
+            if rng.random() < 0.3:
+                desc = textgen.text(rng, 1, 10, exclude=["nul", "line-break"],
+                                    no_outer_space=True)
+                desc = desc.replace("\n", "").replace("\r", "") or "d"
+                if desc != desc.strip():
+                    desc = "a" + desc + "z"
+                res.count("wild-descriptions")
+            h.insert(rng.randint(1, len(h)), ("replace", n, n, None, desc))
         if rng.random() < 0.4:
             h.insert(rng.randint(1, len(h)), ("disable", rng.choice(names)))
         fs = fl.FiltersSet("t", prefixes[0], prefixes[1])
